@@ -290,7 +290,7 @@ class Node:
 
     def queued(self):
         """Entries on the send queue in transmission order (must all belong to one message)."""
-        entries = sorted(self.nt._send_queue.queue)
+        entries = sorted(self.nt._send_queue.queue, key=lambda e: (e.send_time, getattr(e, 'repeat', 0), id(e.msg)))
         if len({id(e.msg) for e in entries}) > 1:
             raise MachineryError('harness assumption broken: one sender call queued more than one message')
         return entries
@@ -298,14 +298,14 @@ class Node:
     def queued_groups(self):
         """Entries on the send queue in transmission order, one list per queued message."""
         groups = {}
-        for e in sorted(self.nt._send_queue.queue):
+        for e in sorted(self.nt._send_queue.queue, key=lambda e: (e.send_time, getattr(e, 'repeat', 0), id(e.msg))):
             groups.setdefault(id(e.msg), []).append(e)
         return list(groups.values())
 
     def drain(self):
         q = self.nt._send_queue
-        while not q.empty():
-            q.get_nowait()
+        with q.mutex:            # (not through get(): popping compares entries, which need not be comparable)
+            q.queue.clear()
 
     def feed(self, data: bytes) -> str:
         """Hand a datagram to the real receive path; report whether it reached the discovery layer."""
@@ -338,7 +338,13 @@ def run_case(env: Env, node: Node, case: dict, kind: str, with_tx: bool) -> list
     env.rnd.arm(case['d0'], case['g'])
     env.clock.now = NOW
     node.last_params = None
-    node.send(ps, kind)
+    send_exc = ''
+    try:
+        node.send(ps, kind)
+    except MachineryError:
+        raise
+    except Exception as ex:  # noqa: BLE001  the sender died half way: what it queued so far is judged (count)
+        send_exc = f'{type(ex).__name__}: {ex}'[:120]
     if len(env.rnd.calls) < 2:
         raise MachineryError(f'harness assumption broken: {len(env.rnd.calls)} random draws instead of 2')
     if env.rnd.clamped:
@@ -357,7 +363,7 @@ def run_case(env: Env, node: Node, case: dict, kind: str, with_tx: bool) -> list
                'draw': {'d0lo': env.rnd.calls[0][0], 'd0hi': env.rnd.calls[0][1],
                         'glo': env.rnd.calls[1][0], 'ghi': env.rnd.calls[1][1]},
                'off': [_us(e.send_time - NOW) for e in entries], 'known': True, 'loop': 'ignored', 'tx': -1,
-               'nth': gi}
+               'nth': gi, 'send_exc': send_exc}
         if entries:
             msg = entries[0].msg
             rec['ps'] = 'multicast' if msg.addr == env.mc_addr else 'unicast'
